@@ -11,7 +11,7 @@ import (
 )
 
 // Snapshot computes a deep structural hash of any object graph, reading unexported fields too.
-// Slices are hashed with len AND cap, maps order-insensitively, funcs by code pointer, pointers by pointee (cycles cut).
+// Slices are hashed with len AND cap and with the contents of their spare capacity, maps order-insensitively, funcs by code pointer, pointers by pointee (cycles cut).
 // It only reads; it is used on schemas, inputs, defaults / catch values / enum lists handed to builders and on validated values.
 func Snapshot(v any) uint64 {
 	h := &snap{seen: map[uintptr]bool{}}
@@ -116,6 +116,14 @@ func (s *snap) value(v reflect.Value, depth int) {
 		s.mix(uint64(v.Cap()) << 20)
 		for i := 0; i < v.Len(); i++ {
 			s.value(readable(v.Index(i)), depth+1)
+		}
+		if v.Cap() > v.Len() {
+			// the spare capacity belongs to the owner of the slice as well: a write into it (an append through an alias) is a modification
+			s.mix(0xC0FFEE)
+			full := v.Slice(0, v.Cap())
+			for i := v.Len(); i < full.Len(); i++ {
+				s.value(readable(full.Index(i)), depth+1)
+			}
 		}
 	case reflect.Array:
 		for i := 0; i < v.Len(); i++ {
